@@ -1,8 +1,8 @@
 (* C18 - The command line's exit code reflects the validation outcome. Property theorems only.
    The except -> exit code table of main(), the results of process() and the --until mapping are regenerated
    from cutplace/applications.py on every run (Generated/ExitCodes.v). *)
-From Coq Require Import Permutation.
-From CP Require Import Model.Base Model.Ranges Model.Fields Model.Validio Model.Cli Proofs.CliProofs.
+From Coq Require Import Permutation String.
+From CP Require Import Model.Base Model.Ranges Model.Fields Model.Validio Model.ValidioInst Model.Cli Proofs.CliProofs.
 Local Open Scope Z_scope.
 
 (* 2 for unusable arguments; 3 when the CID or a data file cannot be read; 1 when the CID or a file is rejected;
@@ -49,3 +49,14 @@ Proof. exact exit_order_lemma. Qed.
 Theorem files_judged_independently : forall (CS : Type) (c : cid CS) limit fresh fs sts,
   validate_files c limit sts fs = map (fun f => fst (validate_file c limit fresh f)) fs.
 Proof. intros CS. exact validate_files_pointwise. Qed.
+
+(* a data file without any rows is judged like any other: a CID whose end check needs two distinct values rejects it
+   (exit 1), also next to an accepted file and in either order; a file that cannot be read still decides for 3 *)
+Example empty_file_is_judged :
+  let c := mkcid false None 0 [mkfield (txt "k"%string) false None HText] [KDistinct 0 CGe 2] in
+  let good := Readable [[txt "a"%string]; [txt "b"%string]] false in
+  let empty := Readable [] false in
+  run_cli None CidOk c [empty] = 1%Z /\ run_cli None CidOk c [good] = 0%Z /\
+  run_cli None CidOk c [good; empty] = 1%Z /\ run_cli None CidOk c [empty; good] = 1%Z /\
+  run_cli (Some 0%Z) CidOk c [empty; Unreadable] = 3%Z.
+Proof. vm_compute. repeat split; reflexivity. Qed.
